@@ -83,6 +83,17 @@ class SBool:
     def __invert__(self):
         return SBool(z3().Not(self.e))
 
+    # a flag computed by the code under test from symbolic values may be stored and compared later (`msg.sent == sent`)
+    def __eq__(self, o):
+        if isinstance(o, (bool, SBool)):
+            return SBool(self.e == _b(o))
+        return NotImplemented
+
+    def __ne__(self, o):
+        if isinstance(o, (bool, SBool)):
+            return SBool(self.e != _b(o))
+        return NotImplemented
+
     def __hash__(self):
         raise Unsupported('hash of symbolic bool')
 
@@ -181,7 +192,12 @@ class SInt:
 
     def __index__(self):
         if self.small is None:
-            raise Unsupported('symbolic int used as index')
+            # an index / slice bound computed from symbolic values (`len(xs) - cap`): concretised by forking over the small magnitudes a position in
+            # one of the harnesses' short lists can have, in a fixed order (deterministic across the re-executions of a path)
+            for k in (0, 1, -1, 2, -2, 3, -3, 4, -4, 5, -5, 6, -6, 7, -7, 8, -8, 9, -9, 10, -10, 11, -11, 12, -12):
+                if _cur.decide(self.e == k):
+                    return k
+            raise Unsupported('symbolic int used as index (no value within -12..12)')
         lo, hi = self.small
         for k in range(lo, hi - 1):
             if _cur.decide(self.e == k):
